@@ -9,6 +9,7 @@ mkdir -p .build evidence
 [ -f tools/ksy2lean.py ] && python3 tools/ksy2lean.py --repo /repo
 [ -d tools/orderfacts ] && (cd tools/orderfacts && go build -o ../../.build/orderfacts . && ../../.build/orderfacts /repo ../../lean/SST/Generated)
 [ -d tools/errfacts ] && (cd tools/errfacts && go build -o ../../.build/errfacts . && ../../.build/errfacts /repo ../../lean/SST/Generated)
+[ -d tools/resfacts ] && (cd tools/resfacts && go build -o ../../.build/resfacts . && ../../.build/resfacts /repo ../../lean/SST/Generated)
 [ -d tools/lockfacts ] && (cd tools/lockfacts && go build -o ../../.build/lockfacts . && ../../.build/lockfacts /repo ../../lean/SST/Generated)
 MODS=$(python3 -c "
 import sys; sys.path.insert(0,'tools')
